@@ -26,7 +26,7 @@ Qed.
 
 Lemma tz_rebuild_id r t : tz_valid t -> tz_rebuild r t = Ok t.
 Proof.
-  destruct t as [|k|off name]; intro H; cbn [tz_rebuild]; [reflexivity | reflexivity |].
+  destruct t as [|k|off name|s]; intro H; cbn [tz_rebuild]; [reflexivity | reflexivity | | reflexivity].
   rewrite fixed_rebuild_eq. cbn in H. rewrite H. reflexivity.
 Qed.
 
@@ -122,7 +122,9 @@ Proof.
   rewrite T. cbn [bind]. rewrite datetime_new_state, C, Ew. reflexivity.
 Qed.
 
-(* DateTime.__deepcopy__ passes fold: identity *)
+(* DateTime.__deepcopy__ passes every field, tzinfo=self.tzinfo and fold: identity, whatever the tzinfo is (pendulum's own classes,
+   a standard-library tzinfo, None).  With tzinfo=self.tz (the code before `fix: ... deepcopy keeps a foreign tzinfo`) the `change`
+   below fails: self.tz is None for a TzForeign value and the copy is naive. *)
 Lemma dt_rebuild_deep v : dt_valid v -> dt_rebuild RDeep v = Ok v.
 Proof.
   intros [HW Htz]. pose proof (fields_roundtrip _ HW) as R.
@@ -143,26 +145,31 @@ Proof.
   - apply dt_rebuild_deep; assumption.
 Qed.
 
+(* the tz-database key behind a tzinfo whose offset depends on the wall time and fold: pendulum Timezone(key) and zoneinfo.ZoneInfo(key) *)
+Definition tz_zone_key (t : tzv) : option Z :=
+  match t with TzNamed k => Some k | TzForeign (StdZone k) => Some k | _ => None end.
 (* the fold=0 reading has the same offset and instant unless the zone distinguishes the two folds at this wall second *)
 Definition fold_matters (zdb : Z -> zone) (v : dtv) : Prop :=
-  match dt_tz v with TzNamed k => ~ wall_unique (zdb k) (dt_W v / MEG) | _ => False end.
+  match tz_zone_key (dt_tz v) with Some k => ~ wall_unique (zdb k) (dt_W v / MEG) | None => False end.
 
 Lemma dt_obs_nofold_unfold zdb v : ~ fold_matters zdb v ->
   dt_obs_nofold zdb (mkdt (dt_W v) false (dt_tz v)) = dt_obs_nofold zdb v.
 Proof.
   intro H. destruct v as [W f tz]. unfold fold_matters in H. cbn [dt_tz dt_W] in H.
   unfold dt_obs_nofold, dt_inst, dt_off. cbn [dt_W dt_fold dt_tz].
-  destruct tz as [|k|o nm]; cbn [tz_off]; try reflexivity.
-  assert (U : wall_unique (zdb k) (W / MEG)).
-  { unfold wall_unique in *. destruct (Z.eq_dec (off_local (zdb k) (W / MEG) false) (off_local (zdb k) (W / MEG) true)); [assumption | contradiction]. }
-  unfold wall_unique in U. destruct f; [rewrite U|]; reflexivity.
+  destruct tz as [|k|o nm|[o|k]]; cbn [tz_off tz_zone_key] in *; try reflexivity.
+  all: assert (U : wall_unique (zdb k) (W / MEG))
+    by (unfold wall_unique in *; destruct (Z.eq_dec (off_local (zdb k) (W / MEG) false) (off_local (zdb k) (W / MEG) true)); [assumption | contradiction]).
+  all: unfold wall_unique in U; destruct f; [rewrite U|]; reflexivity.
 Qed.
 
-Lemma dt_inst_changes zdb v k : dt_tz v = TzNamed k -> dt_fold v = true -> ~ wall_unique (zdb k) (dt_W v / MEG) ->
+Lemma dt_inst_changes zdb v k : tz_zone_key (dt_tz v) = Some k -> dt_fold v = true -> ~ wall_unique (zdb k) (dt_W v / MEG) ->
   dt_inst zdb (mkdt (dt_W v) false (dt_tz v)) <> dt_inst zdb v /\ dt_off zdb (mkdt (dt_W v) false (dt_tz v)) <> dt_off zdb v.
 Proof.
-  intros Htz Hf Hu. destruct v as [W f tz]. cbn in *. subst. unfold wall_unique in Hu.
-  unfold dt_inst, dt_off. cbn [dt_W dt_fold dt_tz tz_off]. unfold MEG in *. split; [lia | congruence].
+  intros Htz Hf Hu. destruct v as [W f tz]. cbn [dt_W dt_fold dt_tz] in *. subst f. unfold wall_unique in Hu.
+  unfold dt_inst, dt_off. cbn [dt_W dt_fold dt_tz].
+  destruct tz as [|k'|o nm|[o|k']]; cbn [tz_zone_key] in Htz; try discriminate; inversion Htz; subst k'; cbn [tz_off];
+    unfold MEG in *; (split; [lia | congruence]).
 Qed.
 
 Lemma dt_pickle_copy_instant zdb r v : not_deep r -> dt_valid v -> ~ fold_matters zdb v ->
@@ -171,12 +178,48 @@ Proof.
   intros Hr Hv Hn. eexists. split; [apply dt_rebuild_pickle_copy; assumption|]. apply dt_obs_nofold_unfold; assumption.
 Qed.
 
-Lemma dt_pickle_copy_changes zdb r v k : not_deep r -> dt_valid v ->
-  dt_tz v = TzNamed k -> dt_fold v = true -> ~ wall_unique (zdb k) (dt_W v / MEG) ->
+Lemma dt_pickle_copy_changes_key zdb r v k : not_deep r -> dt_valid v ->
+  tz_zone_key (dt_tz v) = Some k -> dt_fold v = true -> ~ wall_unique (zdb k) (dt_W v / MEG) ->
   exists v', dt_rebuild r v = Ok v' /\ dt_inst zdb v' <> dt_inst zdb v /\ dt_off zdb v' <> dt_off zdb v /\ dt_fold v' <> dt_fold v.
 Proof.
   intros Hr Hv Htz Hf Hu. eexists. split; [apply dt_rebuild_pickle_copy; assumption|].
   destruct (dt_inst_changes zdb v k Htz Hf Hu) as [A B]. repeat split; try assumption. cbn. rewrite Hf. discriminate.
+Qed.
+Lemma dt_pickle_copy_changes zdb r v k : not_deep r -> dt_valid v ->
+  dt_tz v = TzNamed k -> dt_fold v = true -> ~ wall_unique (zdb k) (dt_W v / MEG) ->
+  exists v', dt_rebuild r v = Ok v' /\ dt_inst zdb v' <> dt_inst zdb v /\ dt_off zdb v' <> dt_off zdb v /\ dt_fold v' <> dt_fold v.
+Proof. intros Hr Hv Htz. apply dt_pickle_copy_changes_key; [assumption | assumption | rewrite Htz; reflexivity]. Qed.
+(* the same for a DateTime that carries a zoneinfo.ZoneInfo *)
+Lemma dt_pickle_copy_changes_zoneinfo zdb r v k : not_deep r -> dt_valid v ->
+  dt_tz v = TzForeign (StdZone k) -> dt_fold v = true -> ~ wall_unique (zdb k) (dt_W v / MEG) ->
+  exists v', dt_rebuild r v = Ok v' /\ dt_inst zdb v' <> dt_inst zdb v /\ dt_off zdb v' <> dt_off zdb v /\ dt_fold v' <> dt_fold v.
+Proof. intros Hr Hv Htz. apply dt_pickle_copy_changes_key; [assumption | assumption | rewrite Htz; reflexivity]. Qed.
+
+(* ------------------------------------------------------------------ standard-library (foreign) tzinfo *)
+(* DateTime.tz / DateTime.timezone is None for a standard-library tzinfo, the tzinfo itself for pendulum's classes *)
+Lemma dt_tz_attribute y mo d h mi s us fold tz :
+  dt_attr_f y mo d h mi s us fold tz "tz" = Some (ATz (pendulum_tz tz)) /\
+  dt_attr_f y mo d h mi s us fold tz "timezone" = Some (ATz (pendulum_tz tz)) /\
+  dt_attr_f y mo d h mi s us fold tz "tzinfo" = Some (ATz tz).
+Proof. repeat split; reflexivity. Qed.
+Lemma pendulum_tz_foreign s : pendulum_tz (TzForeign s) = TzNone.
+Proof. reflexivity. Qed.
+Lemma pendulum_tz_own t : (forall s, t <> TzForeign s) -> pendulum_tz t = t.
+Proof. destruct t; intro H; try reflexivity. exfalso. apply (H s). reflexivity. Qed.
+
+(* every route keeps a standard-library tzinfo: the copy is aware, same tzinfo, same offset, same instant (fold as dt_rebuild_* say) *)
+Lemma dt_foreign_every_route zdb r W f s : wall_in_range W = true ->
+  exists v', dt_rebuild r (mkdt W f (TzForeign s)) = Ok v' /\ dt_tz v' = TzForeign s /\ dt_W v' = W /\ dt_aware v' = true
+             /\ dt_fold v' = match r with RDeep => f | _ => false end
+             /\ (~ fold_matters zdb (mkdt W f (TzForeign s)) -> dt_obs_nofold zdb v' = dt_obs_nofold zdb (mkdt W f (TzForeign s))).
+Proof.
+  intro HW. assert (Hv : dt_valid (mkdt W f (TzForeign s))) by (split; [exact HW | exact I]).
+  destruct r as [p| |].
+  - eexists. split; [apply dt_rebuild_pickle_copy; [exact I | exact Hv]|]. cbn [dt_tz dt_W dt_fold dt_aware].
+    repeat split. intro Hn. apply (dt_obs_nofold_unfold zdb _ Hn).
+  - eexists. split; [apply dt_rebuild_pickle_copy; [exact I | exact Hv]|]. cbn [dt_tz dt_W dt_fold dt_aware].
+    repeat split. intro Hn. apply (dt_obs_nofold_unfold zdb _ Hn).
+  - eexists. split; [apply dt_rebuild_deep; exact Hv|]. cbn [dt_tz dt_W dt_fold dt_aware]. repeat split.
 Qed.
 
 (* ------------------------------------------------------------------ Time *)
@@ -417,6 +460,19 @@ Proof.
   - vm_compute. reflexivity.
 Qed.
 
+(* 2013-10-27T02:30 fold=1 with tzinfo = datetime.timezone.utc / datetime.timezone(-01:01:01) / zoneinfo.ZoneInfo("Europe/Paris"):
+   copy.deepcopy returns the value itself - aware, same offset, same instant, same fold *)
+Lemma dt_deepcopy_foreign_witness :
+  dt_rebuild RDeep (mkdt W_0230 true (TzForeign (StdOffset 0))) = Ok (mkdt W_0230 true (TzForeign (StdOffset 0))) /\
+  dt_obs zdb_paris (mkdt W_0230 true (TzForeign (StdOffset 0))) = [2013; 10; 27; 2; 30; 0; 0; 1; 1; 0; W_0230; 3; 0] /\
+  dt_rebuild RDeep (mkdt W_0230 true (TzForeign (StdOffset (-3661)))) = Ok (mkdt W_0230 true (TzForeign (StdOffset (-3661)))) /\
+  dt_obs zdb_paris (mkdt W_0230 true (TzForeign (StdOffset (-3661)))) = [2013; 10; 27; 2; 30; 0; 0; 1; 1; -3661; W_0230 + 3661 * 1000000; 3; -3661] /\
+  dt_rebuild RDeep (mkdt W_0230 true (TzForeign (StdZone 0))) = Ok (mkdt W_0230 true (TzForeign (StdZone 0))) /\
+  dt_obs zdb_paris (mkdt W_0230 true (TzForeign (StdZone 0))) = [2013; 10; 27; 2; 30; 0; 0; 1; 1; 3600; W_0230 - 3600 * 1000000; 4; 0].
+Proof.
+  repeat split; try (apply dt_rebuild_deep; split; [reflexivity | exact I]); vm_compute; reflexivity.
+Qed.
+
 Lemma time_witness : forall r, tm_rebuild r (mktm 9000000000 true TzNone) = Ok (mktm 9000000000 false TzNone).
 Proof. intro r. apply (tm_rebuild_eq r (mktm 9000000000 true TzNone)). split; [cbn; lia | exact I]. Qed.
 
@@ -557,6 +613,8 @@ Qed.
 (* satisfiability of the hypotheses used above *)
 Example dt_valid_example : dt_valid (mkdt W_0230 false (TzFixed 3600 [43; 48; 49; 58; 48; 48])).
 Proof. split; reflexivity. Qed.
+Example dt_valid_foreign_example : dt_valid (mkdt W_0230 true (TzForeign (StdZone 0))) /\ dt_valid (mkdt W_0230 true (TzForeign (StdOffset (-3661)))).
+Proof. repeat split. Qed.
 Definition dur_weeks0_check : bool :=
   match duration_new 3 0 7 0 0 5 0 1 2 with
   | Ok d => (d_weeks d =? 0) && (Z.abs (d_N d) <? B32) && (Z.abs (d_N d - YM 1 2 * 86400 * 1000000) <? B32)
